@@ -6,26 +6,41 @@ PROP = "C01"
 DRIVER = Driver()
 
 
+def histories():
+    from ..world import BASES
+    one = A.valid_histories(BASES["B1"], A.UEXT, 2)
+    single = [h for h in one if len(h) == 1]
+    hists = [[h, []] for h in one] + [[[], h] for h in one]
+    hists += [[a, b] for a in single for b in single]
+    return hists
+
+
 def jobs(tier):
     out = []
     cfgs = ["oo", "po"] if tier == "quick" else ["oo", "po", "ci", "pci", "pp"]
     orders = ["asc"] if tier == "quick" else ["asc", "desc"]
-    hists = list(A.one_sided(A.UALL, 2)) + list(A.cross(A.UALL, A.UALL, 1, 1))
+    hists = histories()
     for cfg in cfgs:
         for order in orders:
             for sc in hists:
                 out.append({"prop": PROP, "cfg": cfg, "order": order, "base": "B1", "scripts": A.stamp(sc),
                             "mode": {"k": None, "cap": 2000 if tier == "quick" else 6000, "depth": 60 if tier == "quick" else 120, "audit": 64 if tier == "quick" else 8}})
+    # application resolver answering "merged data, keep both": the engine must still go quiet (fair schedule, k=0)
+    for cfg in cfgs:
+        for shape, path in (("create", "c"), ("write", "a")):
+            out.append({"prop": PROP, "cfg": cfg, "order": "asc", "base": "B1",
+                        "scripts": [[[shape, path, "L1"]], [[shape, path, "R1"]]], "opts": {"resolver": "merged_keep", "users_first": True},
+                        "mode": {"k": 0, "cap": 3000, "depth": 400}})
     return out
 
 
 def run_job(job):
-    return run_explore(DRIVER, job)
+    return run_explore(DRIVER, job, liveness_fallback=True)
 
 
 def main(tier):
     rep = report.Report(PROP, tier,
-                        rule="every history of <=2 user operations over the 16-op alphabet (one-sided and 1+1 cross) from "
+                        rule="every history of <=2 user operations over the 27-op alphabet (sequences valid on the reference tree) (one-sided and 1+1 cross) from "
                              "base tree B1, every interleaving of user ops with intake(L), intake(R), sync steps "
                              "(full) on the real engine; non-trivial = history in which >=2 different actors act; "
                              "distinct = distinct canonical state",
